@@ -370,25 +370,31 @@ Proof.
 Qed.
 
 (** the first number computed by calcStatusCode for one pattern *)
-Definition codeFirstNr (c : tcfg) (startTime repTs cycle : Z) : res Z :=
+Definition codeFirstNr (fx : bool) (c : tcfg) (startTime repTs cycle : Z) : res Z :=
   let cycleInTimescale := i64 (cycle * repTs) in
   let nrWraps := Z.quot startTime cycleInTimescale in
   let wrapStartS := i64 (nrWraps * cycle) in
-  let firstNr0 := if nrWraps >? 0 then findLastSegNr r loopMS c (i64 (wrapStartS * 1000)) + 1 else startNr c in
+  let firstNr0 :=
+    if nrWraps >? 0 then
+      if fx then
+        let lastNr := findLastSegNr r loopMS c (i64 ((startS c + wrapStartS) * 1000)) in
+        startNr c + (if lastNr <? 0 then -1 else lastNr) + 1
+      else findLastSegNr r loopMS c (i64 (wrapStartS * 1000)) + 1
+    else startNr c in
   do segTime <- findSegStartTime r loopMS c firstNr0;
   Ok (if segTime <? i64 (wrapStartS * repTs) then firstNr0 + 1 else firstNr0).
 
 Lemma codeFirstNr_spec c ss n :
   startS c = 0 -> startNr c = 0 -> repDuration r < two64 -> goodCode r ss -> 0 <= n -> S r n * 1000 < two63 ->
   ts r < two32 ->
-  codeFirstNr c (S r n) (ts r) (sc_cycle ss) = Ok (firstInCycle r (sc_cycle ss) n).
+  codeFirstNr false c (S r n) (ts r) (sc_cycle ss) = Ok (firstInCycle r (sc_cycle ss) n).
 Proof.
   intros Hst Hsn HD ([Hc Hcmax] & HE0) Hn HSb Hts32. pose proof (wf_ts _ _ W) as Hts.
   assert (Hov : sc_cycle ss * ts r < two63) by (unfold two63, two32 in *; nia).
   pose proof (S_nonneg r loopMS n W Hn) as HS0.
   set (cycle := sc_cycle ss) in *. set (cyT := cycle * ts r) in *.
   assert (HcyT : 0 < cyT) by (unfold cyT; nia).
-  unfold codeFirstNr. rewrite Hsn. fold cycle. fold cyT. rewrite (i64_id cyT) by (unfold two63 in *; lia).
+  unfold codeFirstNr. cbv iota. rewrite Hsn. fold cycle. fold cyT. rewrite (i64_id cyT) by (unfold two63 in *; lia).
   rewrite Z.quot_div_nonneg by lia.
   set (q := S r n / cyT).
   assert (Hq : 0 <= q) by (apply Z.div_pos; lia).
@@ -426,14 +432,14 @@ Proof.
     split; [lia|]. split; [rewrite (S_0 r loopMS W); lia|left; reflexivity].
 Qed.
 
-Lemma statusLoop_cons c repID startTime repTs nr ss rest :
-  statusLoop r loopMS c repID startTime repTs nr (ss :: rest) =
-  if negb (repInReps repID (sc_reps ss)) then statusLoop r loopMS c repID startTime repTs nr rest else
+Lemma statusLoop_cons fx c repID startTime repTs nr ss rest :
+  statusLoop fx r loopMS c repID startTime repTs nr (ss :: rest) =
+  if negb (repInReps repID (sc_reps ss)) then statusLoop fx r loopMS c repID startTime repTs nr rest else
   if i64 (sc_cycle ss * repTs) =? 0 then Panic "calcStatusCode: integer divide by zero" else
-  do firstNr <- codeFirstNr c startTime repTs (sc_cycle ss);
+  do firstNr <- codeFirstNr fx c startTime repTs (sc_cycle ss);
   if nr - firstNr <? 0 then Err "segment is before first segment"
   else if nr - firstNr =? sc_rsq ss then Ok (sc_code ss)
-  else statusLoop r loopMS c repID startTime repTs nr rest.
+  else statusLoop fx r loopMS c repID startTime repTs nr rest.
 Proof.
   cbn [statusLoop]. destruct (negb (repInReps repID (sc_reps ss))); [reflexivity|].
   destruct (i64 (sc_cycle ss * repTs) =? 0); [reflexivity|].
@@ -446,7 +452,7 @@ Qed.
 Lemma statusLoop_spec c repID n codes :
   startS c = 0 -> startNr c = 0 -> repDuration r < two64 -> Forall (goodCode r) codes -> 0 <= n ->
   S r n * 1000 < two63 -> ts r < two32 ->
-  statusLoop r loopMS c repID (S r n) (ts r) n codes = Ok (scheduleCode r codes repID n).
+  statusLoop false r loopMS c repID (S r n) (ts r) n codes = Ok (scheduleCode r codes repID n).
 Proof.
   intros Hst Hsn HD Hgood Hn HSb Hts32. induction Hgood as [|ss rest Hss _ IH]; [reflexivity|].
   rewrite statusLoop_cons. cbn [scheduleCode].
@@ -471,7 +477,7 @@ Definition timedAnswer (t : tv) (a : Z) : answer :=
 Lemma calcStatusCode_spec c codes repID n nr :
   startS c = 0 -> startNr c = 0 -> repDuration r < two64 -> Forall (goodCode r) codes -> 0 <= n ->
   S r n * 1000 < two63 -> ts r < two32 -> nr = n ->
-  calcStatusCode r loopMS c codes repID (metaOf r c n nr) = Ok (scheduleCode r codes repID n).
+  calcStatusCode false r loopMS c codes repID (metaOf r c n nr) = Ok (scheduleCode r codes repID n).
 Proof.
   intros Hst Hsn HD Hgood Hn HS Hts ->. unfold calcStatusCode, metaOf. cbn [newTime mtimescale newNr].
   pose proof (S_nonneg r loopMS n W Hn). pose proof (wf_ts _ _ W).
@@ -483,7 +489,7 @@ Qed.
 Lemma segAnswer_number c codes repID audio n now base :
   startS c = 0 -> startNr c = 0 -> repDuration r < two64 -> Forall (goodCode r) codes -> codes <> [] -> forallb codeValid codes = true ->
   0 <= n < two32 -> S r n * 1000 < two63 -> ts r < two32 -> 0 <= now ->
-  segAnswer r loopMS c codes repID audio ByNumber n now base =
+  segAnswer false r loopMS c codes repID audio ByNumber n now base =
   timedAnswer (checkTime (E r n) (ts r) now (tsbdS c) (ato c)) (scheduled codes repID n base).
 Proof.
   intros Hst Hsn HD Hgood Hne Hval Hn HS Hts Hnow. unfold segAnswer. rewrite Hval, Hst. cbn [negb Z.mul].
@@ -503,7 +509,7 @@ Qed.
 Lemma segAnswer_time c codes repID n now base :
   startS c = 0 -> startNr c = 0 -> repDuration r < two64 -> Forall (goodCode r) codes -> codes <> [] -> forallb codeValid codes = true ->
   0 <= n < two32 -> S r n * 1000 < two63 -> ts r < two32 -> 0 <= now ->
-  segAnswer r loopMS c codes repID None ByTime (S r n) now base =
+  segAnswer false r loopMS c codes repID None ByTime (S r n) now base =
   timedAnswer (checkTime (E r n) (ts r) now (tsbdS c) (ato c)) (scheduled codes repID n base).
 Proof.
   intros Hst Hsn HD Hgood Hne Hval Hn HS Hts Hnow. unfold segAnswer. rewrite Hval, Hst. cbn [negb Z.mul].
@@ -545,10 +551,10 @@ Definition w_cfg (start snr : Z) : tcfg := {| startS := start; startNr := snr; t
     segment 31 of cycle 30 (the second segment of the cycle that starts at 60 s) is not hit. *)
 Lemma start_refuted :
   wf w_rep2 8000 /\ goodCode w_rep2 (w_code 8 1 404) /\ goodCode w_rep2 (w_code 30 1 404) /\
-  segAnswer w_rep2 8000 (w_cfg 30 0) [w_code 8 1 404] "V300" None ByNumber 4 40037 200
+  segAnswer false w_rep2 8000 (w_cfg 30 0) [w_code 8 1 404] "V300" None ByNumber 4 40037 200
     = APanic "findSegStartTime: index out of range" /\
   scheduleCode w_rep2 [w_code 30 1 404] "V300" 31 = 404 /\
-  segAnswer w_rep2 8000 (w_cfg 30 0) [w_code 30 1 404] "V300" None ByNumber 31 94037 200 = AStatus 200.
+  segAnswer false w_rep2 8000 (w_cfg 30 0) [w_code 30 1 404] "V300" None ByNumber 31 94037 200 = AStatus 200.
 Proof.
   split; [exact w_rep2_wf|]. repeat split; try (cbn; unfold two63; lia); vm_compute; reflexivity.
 Qed.
@@ -558,10 +564,10 @@ Qed.
     16, second of the cycle that starts at 16 s) is not hit. *)
 Lemma snr_refuted :
   wf w_rep2 8000 /\ goodCode w_rep2 (w_code 8 1 404) /\
-  segAnswer w_rep2 8000 (w_cfg 0 7) [w_code 8 1 404] "V300" None ByNumber 11 10037 200
+  segAnswer false w_rep2 8000 (w_cfg 0 7) [w_code 8 1 404] "V300" None ByNumber 11 10037 200
     = APanic "findSegStartTime: index out of range" /\
   scheduleCode w_rep2 [w_code 8 1 404] "V300" 9 = 404 /\
-  segAnswer w_rep2 8000 (w_cfg 0 7) [w_code 8 1 404] "V300" None ByNumber 16 20037 200 = AStatus 200.
+  segAnswer false w_rep2 8000 (w_cfg 0 7) [w_code 8 1 404] "V300" None ByNumber 16 20037 200 = AStatus 200.
 Proof.
   split; [exact w_rep2_wf|]. repeat split; try (cbn; unfold two63; lia); vm_compute; reflexivity.
 Qed.
@@ -571,12 +577,12 @@ Qed.
 Lemma short_cycle_refuted :
   wf w_rep6 12000 /\ wf w_rep8 8000 /\
   ~ goodCode w_rep6 (w_code 5 0 400) /\ ~ goodCode w_rep8 (w_code 3 0 500) /\
-  segAnswer w_rep6 12000 (w_cfg 0 0) [w_code 5 0 400] "V300" None ByNumber 1 12037 200
+  segAnswer false w_rep6 12000 (w_cfg 0 0) [w_code 5 0 400] "V300" None ByNumber 1 12037 200
     = APanic "findSegStartTime: index out of range" /\
   scheduleCode w_rep8 [w_code 3 0 500] "V300" 1 = 500 /\
-  segAnswer w_rep8 8000 (w_cfg 0 0) [w_code 3 0 500] "V300" None ByNumber 1 16037 200 = AStatus 200 /\
+  segAnswer false w_rep8 8000 (w_cfg 0 0) [w_code 3 0 500] "V300" None ByNumber 1 16037 200 = AStatus 200 /\
   scheduleCode w_rep8 [w_code 3 1 599] "V300" 1 = 0 /\
-  segAnswer w_rep8 8000 (w_cfg 0 0) [w_code 3 1 599] "V300" None ByNumber 1 16037 200 = AStatus 599.
+  segAnswer false w_rep8 8000 (w_cfg 0 0) [w_code 3 1 599] "V300" None ByNumber 1 16037 200 = AStatus 599.
 Proof.
   split; [exact w_rep6_wf|]. split; [exact w_rep8_wf|].
   split; [intros (_ & H); vm_compute in H; apply H; reflexivity|].
@@ -587,7 +593,7 @@ Qed.
 (** a cycle above 2^31 s is refused (cycle * timescale used to wrap to 0: division by zero) *)
 Lemma cycle_wrap_rejected :
   ~ goodCode w_rep2 (w_code 1152921504606846976 38 404) /\
-  segAnswer w_rep2 8000 (w_cfg 0 0) [w_code 1152921504606846976 38 404] "V300" None ByNumber 38 78037 200
+  segAnswer false w_rep2 8000 (w_cfg 0 0) [w_code 1152921504606846976 38 404] "V300" None ByNumber 38 78037 200
     = AStatus 400.
 Proof.
   split; [intros ([_ H] & _); vm_compute in H; apply H; reflexivity|vm_compute; reflexivity].
@@ -677,7 +683,7 @@ Lemma segAnswer_audio_time c codes repID ats sd t n now base :
   0 <= n < two32 -> S r n * 1000 < two63 -> ts r < two32 -> 0 <= now ->
   0 < ats -> 0 < sd -> t mod sd = 0 -> 0 <= t -> t * ts r < two64 ->
   S r n <= t * ts r / ats < E r n ->
-  segAnswer r loopMS c codes repID (Some (ats, sd)) ByTime t now base =
+  segAnswer false r loopMS c codes repID (Some (ats, sd)) ByTime t now base =
   timedAnswer (checkTime (E r n) (ts r) now (tsbdS c) (ato c)) (scheduled r codes repID n base).
 Proof.
   intros Hst Hsn HD Hgood Hne Hval Hn HS Hts Hnow Hats Hsd Hmod Ht Htb HR.
@@ -696,3 +702,184 @@ Proof.
 Qed.
 
 End AudioTime.
+
+(** * The repaired calcStatusCode (fx = true, proposed_fixes/C14-statuscode-cycle-start.diff):
+      the schedule for every start time, start number and cycle length *)
+Section Repaired.
+Variable r : rep.
+Variable loopMS : Z.
+Hypothesis W : wf r loopMS.
+
+Lemma genTL_ext wt wt' a :
+  startWraps wt = startWraps wt' -> startRelMS wt = startRelMS wt' ->
+  nowWraps wt = nowWraps wt' -> nowRelMS wt = nowRelMS wt' ->
+  generateTimelineEntriesU r wt a = generateTimelineEntriesU r wt' a.
+Proof. intros H1 H2 H3 H4. unfold generateTimelineEntriesU. rewrite H1, H2, H3, H4. reflexivity. Qed.
+
+(** the timeline only depends on the time since availabilityStartTime *)
+Lemma findLastSegNr_shift c c0 m : startS c0 = 0 ->
+  findLastSegNr r loopMS c (startS c * 1000 + m) = findLastSegNr r loopMS c0 m.
+Proof.
+  intros H0. unfold findLastSegNr. f_equal. apply genTL_ext; unfold calcWrapTimes; rewrite H0;
+    cbn [startWraps startRelMS nowWraps nowRelMS];
+    destruct (startS c * 1000 + m - 60000 <? startS c * 1000) eqn:E1;
+    destruct (m - 60000 <? 0 * 1000) eqn:E2; try lia;
+    repeat match goal with
+    | |- context [startS c * 1000 - startS c * 1000] => replace (startS c * 1000 - startS c * 1000) with (0 * 1000 - 0 * 1000) by lia
+    | |- context [startS c * 1000 + m - 60000 - startS c * 1000] =>
+        replace (startS c * 1000 + m - 60000 - startS c * 1000) with (m - 60000 - 0 * 1000) by lia
+    | |- context [startS c * 1000 + m - startS c * 1000] => replace (startS c * 1000 + m - startS c * 1000) with (m - 0 * 1000) by lia
+    end; try reflexivity; try lia.
+Qed.
+
+(** at any instant: either the last ended segment, or nothing has ended (lastNr() = -2) *)
+Lemma findLastSegNr_cases c nowMS :
+  startS c = 0 -> 0 <= nowMS -> repDuration r < two64 ->
+  let T := nowMS * ts r / 1000 in
+  let L := findLastSegNr r loopMS c nowMS in
+  (0 <= L /\ E r L <= T < E r (L + 1)) \/ (L = -2 /\ T < E r 0).
+Proof.
+  intros Hst Hnow HD. cbn zeta.
+  destruct (Z_le_gt_dec (E r 0) (nowMS * ts r / 1000)) as [Hle|Hgt].
+  - left. exact (findLastSegNr_spec r loopMS W c nowMS Hst Hnow HD Hle).
+  - right. split; [|lia].
+    pose proof (loopMS_pos r loopMS W) as HLp. pose proof (N_pos r loopMS W) as HN.
+    unfold findLastSegNr, calcWrapTimes. rewrite Hst. cbn [Z.mul]. rewrite !Z.sub_0_r, !Z.add_0_r.
+    set (stMS := if nowMS - 60000 <? 0 then 0 else nowMS - 60000).
+    assert (HstMS : 0 <= stMS <= nowMS) by (unfold stMS; destruct (nowMS - 60000 <? 0) eqn:E; lia).
+    rewrite !Z.quot_div_nonneg by lia.
+    unfold generateTimelineEntriesU. cbn [startWraps startRelMS nowWraps nowRelMS].
+    pose proof (edgeIdxU_spec r loopMS W (nowMS / loopMS) (nowMS - nowMS / loopMS * loopMS) ltac:(lia) HD) as Hn.
+    rewrite (ticks_split r loopMS W nowMS) in Hn by lia.
+    destruct (edgeIdxU r (stMS / loopMS) (stMS - stMS / loopMS * loopMS) 0) as [sw0 si0].
+    destruct (edgeIdxU r (nowMS / loopMS) (nowMS - nowMS / loopMS * loopMS) 0) as [nw ni].
+    destruct Hn as (Hnw & Hni & Hn1 & Hn2).
+    destruct (if sw0 <? 0 then (0, 0) else (sw0, si0)) as [sw si].
+    destruct (nw <? 0) eqn:Enw; [reflexivity|exfalso].
+    assert (0 <= nw * nsegs r + ni) by nia.
+    pose proof (E_le r loopMS W 0 (nw * nsegs r + ni) ltac:(lia) ltac:(lia)). lia.
+Qed.
+
+(** what the theorems need of a pattern now: only what the parser enforces *)
+Definition validCycle (ss : sscode) : Prop := 0 < sc_cycle ss <= 2147483647.
+
+Lemma codeFirstNr_repaired c ss n :
+  0 <= startS c -> repDuration r < two64 -> validCycle ss -> 0 <= n ->
+  (startS c + S r n) * 1000 < two63 -> ts r < two32 ->
+  codeFirstNr r loopMS true c (S r n) (ts r) (sc_cycle ss) = Ok (startNr c + firstInCycle r (sc_cycle ss) n).
+Proof.
+  intros Hst0 HD [Hc Hcmax] Hn HSb Hts32. pose proof (wf_ts _ _ W) as Hts.
+  pose proof (S_nonneg r loopMS n W Hn) as HS0.
+  assert (Hov : sc_cycle ss * ts r < two63) by (unfold two63, two32 in *; nia).
+  set (cycle := sc_cycle ss) in *. set (cyT := cycle * ts r) in *.
+  assert (HcyT : 0 < cyT) by (unfold cyT; nia).
+  unfold codeFirstNr. cbv iota. fold cycle. fold cyT. rewrite (i64_id cyT) by (unfold two63 in *; lia).
+  rewrite Z.quot_div_nonneg by lia.
+  set (q := S r n / cyT).
+  assert (Hq : 0 <= q) by (apply Z.div_pos; lia).
+  assert (HX : cycleStart r cycle n = q * cyT) by reflexivity.
+  assert (HqX : q * cyT <= S r n) by (unfold q; pose proof (Z.mul_div_le (S r n) cyT HcyT); lia).
+  assert (Hqc : 0 <= q * cycle <= S r n) by (unfold cyT in HqX; nia).
+  rewrite (i64_id (q * cycle)) by (unfold two63 in *; lia).
+  rewrite (i64_id ((startS c + q * cycle) * 1000)) by (unfold two63 in *; lia).
+  rewrite (i64_id (q * cycle * ts r)) by (unfold two63 in *; nia).
+  destruct (firstInCycle_spec r loopMS W cycle n Hc Hn) as [Hfirst Hle]. rewrite HX in Hfirst.
+  assert (Hfs : forall m, 0 <= m -> findSegStartTime r loopMS c (startNr c + m) = Ok (S r m))
+    by (intros m Hm; exact (findSegStartTime_spec r loopMS W c m Hm)).
+  replace (q * cycle * ts r) with (q * cyT) by (unfold cyT; ring).
+  destruct (q >? 0) eqn:Eq.
+  - set (c0 := {| startS := 0; startNr := startNr c; tsbdS := tsbdS c; ato := ato c |}).
+    replace ((startS c + q * cycle) * 1000) with (startS c * 1000 + q * cycle * 1000) by ring.
+    rewrite (findLastSegNr_shift c c0 (q * cycle * 1000) eq_refl).
+    pose proof (findLastSegNr_cases c0 (q * cycle * 1000) eq_refl ltac:(nia) HD) as HL. cbn zeta in HL.
+    replace (q * cycle * 1000 * ts r / 1000) with (q * cyT) in HL
+      by (replace (q * cycle * 1000 * ts r) with (q * cyT * 1000) by (unfold cyT; ring); now rewrite Z.div_mul by lia).
+    set (L := findLastSegNr r loopMS c0 (q * cycle * 1000)) in *.
+    destruct HL as [(HL0 & HL1 & HL2)|(HLm & HLE)].
+    + destruct (L <? 0) eqn:EL; [lia|].
+      replace (startNr c + L + 1) with (startNr c + (L + 1)) by lia.
+      rewrite Hfs by lia. cbn [bind]. f_equal.
+      rewrite <- (S_E_contiguous r loopMS W) in HL1 by lia.
+      destruct (S r (L + 1) <? q * cyT) eqn:Elt.
+      * replace (startNr c + (L + 1) + 1) with (startNr c + (L + 2)) by lia. f_equal.
+        apply (isFirst_unique r loopMS W (q * cyT)); [|exact Hfirst].
+        split; [lia|]. split.
+        -- replace (L + 2) with ((L + 1) + 1) by lia. rewrite (S_E_contiguous r loopMS W) by lia. lia.
+        -- right. replace (L + 2 - 1) with (L + 1) by lia. lia.
+      * f_equal. apply (isFirst_unique r loopMS W (q * cyT)); [|exact Hfirst].
+        split; [lia|]. split; [lia|]. right. replace (L + 1 - 1) with L by lia.
+        pose proof (S_lt_E r loopMS W L HL0). rewrite (S_E_contiguous r loopMS W) in HL1 by lia. lia.
+    + rewrite HLm. change (-2 <? 0) with true. cbv iota.
+      replace (startNr c + -1 + 1) with (startNr c + 0) by lia.
+      rewrite Hfs by lia. cbn [bind]. f_equal. rewrite (S_0 r loopMS W).
+      destruct (0 <? q * cyT) eqn:E0; [|nia].
+      replace (startNr c + 0 + 1) with (startNr c + 1) by lia. f_equal.
+      apply (isFirst_unique r loopMS W (q * cyT)); [|exact Hfirst].
+      split; [lia|]. split.
+      * change 1 with (0 + 1). rewrite (S_E_contiguous r loopMS W) by lia. lia.
+      * right. change (1 - 1) with 0. rewrite (S_0 r loopMS W). nia.
+  - assert (q = 0) by lia.
+    pose proof (Hfs 0 ltac:(lia)) as Hf0. rewrite Z.add_0_r in Hf0. rewrite Hf0. cbn [bind]. f_equal.
+    rewrite (S_0 r loopMS W). replace (q * cyT) with 0 by lia. change (0 <? 0) with false. cbv iota.
+    replace (startNr c) with (startNr c + 0) at 1 by lia. f_equal.
+    apply (isFirst_unique r loopMS W (q * cyT)); [|exact Hfirst].
+    split; [lia|]. split; [rewrite (S_0 r loopMS W); lia|left; reflexivity].
+Qed.
+
+Lemma statusLoop_repaired c repID n codes :
+  0 <= startS c -> repDuration r < two64 -> Forall validCycle codes -> 0 <= n ->
+  (startS c + S r n) * 1000 < two63 -> ts r < two32 ->
+  statusLoop true r loopMS c repID (S r n) (ts r) (startNr c + n) codes = Ok (scheduleCode r codes repID n).
+Proof.
+  intros Hst HD Hgood Hn HSb Hts32. induction Hgood as [|ss rest Hss _ IH]; [reflexivity|].
+  rewrite (statusLoop_cons r loopMS). cbn [scheduleCode].
+  destruct (repInReps repID (sc_reps ss)) eqn:Erep; cbn [negb andb]; [|exact IH].
+  pose proof Hss as [Hc Hcmax]. pose proof (wf_ts _ _ W) as Hts.
+  rewrite i64_id by (unfold two63, two32 in *; nia).
+  destruct (sc_cycle ss * ts r =? 0) eqn:E0; [nia|].
+  rewrite (codeFirstNr_repaired c ss n Hst HD Hss Hn HSb Hts32). cbn [bind].
+  destruct (firstInCycle_spec r loopMS W (sc_cycle ss) n Hc Hn) as [_ Hle].
+  replace (startNr c + n - (startNr c + firstInCycle r (sc_cycle ss) n)) with (n - firstInCycle r (sc_cycle ss) n) by lia.
+  destruct (n - firstInCycle r (sc_cycle ss) n <? 0) eqn:Eneg; [lia|].
+  destruct (n - firstInCycle r (sc_cycle ss) n =? sc_rsq ss); [reflexivity|exact IH].
+Qed.
+
+(** A request by $Number$ (video or audio) for segment n = number startNr + n, any start time,
+    start number and cycle the parser accepts. *)
+Lemma segAnswer_number_repaired c codes repID audio n now base :
+  0 <= startS c -> 0 <= startNr c -> startNr c + n < two32 -> repDuration r < two64 ->
+  codes <> [] -> forallb codeValid codes = true ->
+  0 <= n -> (startS c + S r n) * 1000 < two63 -> ts r < two32 -> startS c * 1000 <= now ->
+  segAnswer true r loopMS c codes repID audio ByNumber (startNr c + n) now base =
+  timedAnswer (checkTime (E r n + startS c * ts r) (ts r) now (tsbdS c) (ato c)) (scheduled r codes repID n base).
+Proof.
+  intros Hst Hsn Hn32 HD Hne Hval Hn HS Hts Hnow. unfold segAnswer. rewrite Hval. cbn [negb].
+  destruct (now <? startS c * 1000) eqn:E0; [lia|]. destruct codes as [|c0 cs] eqn:Ec; [congruence|]. rewrite <- Ec in *.
+  assert (Hgood : Forall validCycle codes).
+  { apply Forall_forall. intros ss Hin. rewrite forallb_forall in Hval. specialize (Hval ss Hin).
+    unfold codeValid in Hval. unfold validCycle. lia. }
+  assert (Hf : findSegMeta r loopMS c audio ByNumber (startNr c + n) now = lookup r loopMS c ByNumber (startNr c + n) now)
+    by (unfold findSegMeta; destruct audio as [[? ?]|]; reflexivity).
+  rewrite Hf. rewrite (lookup_number r loopMS c n now Hn Hsn Hn32).
+  rewrite (segMetaFromNr_spec r loopMS W c n now Hn).
+  destruct (checkTime (E r n + startS c * ts r) (ts r) now (tsbdS c) (ato c)); cbn [timed timedAnswer]; [|reflexivity|reflexivity].
+  unfold calcStatusCode, metaOf. cbn [newTime mtimescale newNr].
+  pose proof (S_nonneg r loopMS n W Hn). pose proof (wf_ts _ _ W).
+  rewrite u64_id by (unfold two63, two64 in *; lia). rewrite i64_id by (unfold two63 in *; lia).
+  rewrite u32_id by lia.
+  rewrite (statusLoop_repaired c repID n codes Hst HD Hgood Hn HS Hts). unfold scheduled.
+  destruct (scheduleCode r codes repID n =? 0); reflexivity.
+Qed.
+
+End Repaired.
+
+(** with the repair the former witnesses follow the schedule *)
+Lemma repaired_witnesses :
+  segAnswer true w_rep2 8000 (w_cfg 30 0) [w_code 8 1 404] "V300" None ByNumber 4 40037 200 = AStatus 200 /\
+  segAnswer true w_rep2 8000 (w_cfg 30 0) [w_code 30 1 404] "V300" None ByNumber 31 94037 200 = AStatus 404 /\
+  segAnswer true w_rep2 8000 (w_cfg 0 7) [w_code 8 1 404] "V300" None ByNumber 11 10037 200 = AStatus 200 /\
+  segAnswer true w_rep2 8000 (w_cfg 0 7) [w_code 8 1 404] "V300" None ByNumber 16 20037 200 = AStatus 404 /\
+  segAnswer true w_rep6 12000 (w_cfg 0 0) [w_code 5 0 400] "V300" None ByNumber 1 12037 200 = AStatus 400 /\
+  segAnswer true w_rep8 8000 (w_cfg 0 0) [w_code 3 0 500] "V300" None ByNumber 1 16037 200 = AStatus 500 /\
+  segAnswer true w_rep8 8000 (w_cfg 0 0) [w_code 3 1 599] "V300" None ByNumber 1 16037 200 = AStatus 200.
+Proof. repeat split; vm_compute; reflexivity. Qed.
